@@ -56,11 +56,22 @@ class VerusFile:
             self.expected.append(expected)
         return text
 
-    def text(self, canary=False):
+    def n_canaries(self):
+        return "".join(p.text for p in self.parts).count(CANARY)
+
+    def text(self, canary=None):
+        """canary=None: normal text; canary=i: only the i-th CANARY marker becomes `false,` (one function at a time, so that a
+        callee's `ensures false` cannot make its callers vacuous)."""
         t = "".join(p.text for p in self.parts)
-        if canary:
-            return t.replace(CANARY, "false,")
-        return t.replace(CANARY, "")
+        if canary is None or canary is False:
+            return t.replace(CANARY, "")
+        segs = t.split(CANARY)
+        out = []
+        for i, sgm in enumerate(segs):
+            out.append(sgm)
+            if i < len(segs) - 1:
+                out.append("false," if i == canary else "")
+        return "".join(out)
 
     def edits(self):
         out = []
@@ -94,8 +105,8 @@ def scan_trusted(text):
     return found, n_assume, n_admit
 
 
-def run_verus(vf, workdir, canary=False, rlimit=None, timeout=600, extra=None):
-    fname = os.path.join(workdir, vf.name + ("_canary" if canary else "") + ".rs")
+def run_verus(vf, workdir, canary=None, rlimit=None, timeout=600, extra=None):
+    fname = os.path.join(workdir, vf.name + (f"_canary{canary}" if canary is not None else "") + ".rs")
     text = vf.text(canary=canary)
     write(fname, text)
     cmd = ["verus", fname, "--output-json", "--time", "--error-format=json", "--multiple-errors", "50", "--triggers-mode", "silent"]
